@@ -2865,7 +2865,15 @@ impl Typer {
                 }
 
                 if !field_map.is_empty() {
-                    let extra = field_map.keys().cloned().collect::<Vec<_>>().join(", ");
+                    // in the order written in the pattern, so that the message does not depend on hashing
+                    let mut extra: Vec<String> = Vec::new();
+                    for (fname, _) in fields.iter() {
+                        let fname = fname.to_ident_name();
+                        if field_map.contains_key(&fname) && !extra.contains(&fname) {
+                            extra.push(fname);
+                        }
+                    }
+                    let extra = extra.join(", ");
                     super::util::push_error(
                         diagnostics,
                         format!(
